@@ -41,7 +41,7 @@ class SignedBytes(Obligation):
     def __init__(self,what='link',nbytes=2,seed=0,known=(),rate=40,prop='C05',wire=False,**kw):
         self.what=what; self.nbytes=nbytes; self.seed=seed; self.rate=rate; self.known=set(known); self.prop=prop; self.wire=wire
         self.name='%s.%s_%s'%(prop,'wire_trip' if wire else 'signed_bytes',what)
-        self.bounds={'metadata':what+' of fixed small shape (1 material, 1 product, 1 environment entry, byproducts with stdout/stderr/return-value and one extra field; layout: 1 step with 2 rules, 1 inspection, 1 key)',
+        self.bounds={'metadata':what+' of fixed small shape (1 material, 1 product, 1 environment entry, byproducts with stdout/stderr/return-value and one extra field; layout: 1 step with 2 rules, 1 inspection, 1 key filed under its own or under another identifier)',
                      'focus_string':'one string-bearing field at a time holds 0..%d free ASCII bytes (every control character, quote, backslash, DEL; and fixed non-ASCII samples); fields: %s'%(nbytes,', '.join(FOCI_LINK if what=='link' else FOCI_LAYOUT)),
                      'numbers':'threshold any u32 and return-value any i32 (in the paths whose focus is the numbers; otherwise fixed), digest bytes free','expiry':'fixed whole-second instants (text formatting of instants is chrono\'s; C06/C16 relate text and instant)'}
         self.witnesses=['verified_bytes_read_back','sign_and_verify_bytes_equal']+(['wire_trip_verified'] if wire else []); self.seen=set()
@@ -135,9 +135,13 @@ class SignedBytes(Obligation):
         step=b.struct('Step',typ=mk_string('step'),threshold=Int(32,False,thr),name=StringO(sname),expected_materials=VecO([rule1]),expected_products=VecO([rule2]),pub_keys=VecO([b.keyid(kid)]),expected_command=Agg('Command',[VecO([StringO(ecmd)])]))
         insp=b.struct('Inspection',typ=mk_string('inspection'),name=mk_string('i0'),expected_materials=VecO([]),expected_products=VecO([b.rule('Allow','x')]),run=Agg('Command',[VecO([StringO(irun),mk_string('-x')])]))
         key=b.pubkey(kid,value=kval)
-        lay=b.struct('LayoutMetadata',steps=VecO([step]),inspect=VecO([insp]),keys=b.hashmap([(b.keyid(kid),key)]),expires=b.datetime(secs),readme=StringO(readme))
+        # the in-memory key table may file a key under an identifier that is not the key's own (the table is a plain map):
+        # the signed bytes must then say so, i.e. carry the table as it is (the identifier -> key association is signed content)
+        mapid=kid if (self.wire or run.ghost['focus']!='numbers' or run.pick(2,'table_id')==0) else 'ab'*32      # varied together with the numbers focus only (cost)
+        run.ghost['via_api']=(mapid!=kid)
+        lay=b.struct('LayoutMetadata',steps=VecO([step]),inspect=VecO([insp]),keys=b.hashmap([(b.keyid(mapid),key)]),expires=b.datetime(secs),readme=StringO(readme))
         tree=O(('_type',S('layout')),('expires',S(etxt)),('readme',('str',readme)),
-               ('keys',O((kid,O(('keyid',S(kid)),('keyid_hash_algorithms',A(S('sha256'),S('sha512'))),('keytype',S('ed25519')),('keyval',O(('private',S('')),('public',('str',hexs(kval))))),('scheme',S('ed25519')))))),
+               ('keys',O((mapid,O(('keyid',S(kid)),('keyid_hash_algorithms',A(S('sha256'),S('sha512'))),('keytype',S('ed25519')),('keyval',O(('private',S('')),('public',('str',hexs(kval))))),('scheme',S('ed25519')))))),
                ('steps',A(O(('_type',S('step')),('name',('str',sname)),('threshold',('intval',32,False,thr)),
                             ('expected_materials',A(A(S('MATCH'),('str',pat),S('IN'),('str',pre),S('WITH'),S('PRODUCTS'),S('FROM'),S('t')))),('expected_products',A(A(S('DISALLOW'),S('*')))),
                             ('pubkeys',A(S(kid))),('expected_command',A(('str',ecmd)))))),
@@ -146,12 +150,13 @@ class SignedBytes(Obligation):
     def mk_args(self,run):
         foci=FOCI_LINK if self.what=='link' else FOCI_LAYOUT
         if self.wire: foci=[f for f in foci if f!='numbers']      # two independent decimal renderings of one free number defeat the solver; numbers on the wire are C16's
-        run.ghost['focus']=foci[run.pick(len(foci),'focus')]; run.ghost['fbytes']=[]
+        run.ghost['focus']=foci[run.pick(len(foci),'focus')]; run.ghost['fbytes']=[]; run.ghost['via_api']=False
         mk,tree=self.mk_link(run) if self.what=='link' else self.mk_layout(run)
         return (mk(),mk(),mk()),{'tree':tree,'focus':run.ghost['focus'],'fbytes':run.ghost['fbytes'],'mk':mk}
     # ------------------------------------------------------------------ checks
     def scn(self,run,g,m,msg):
         d={'kind':'signed_bytes','what':self.what,'tree':tree_py(g['tree'],m),'expect_bytes':[model_value(m,x) for x in msg]}
+        if run.ghost.get('via_api'): d['via_api']=True
         if self.prop=='C11': d['compare']='olpc'
         return d
     def check(self,run,out,g):
